@@ -59,3 +59,24 @@ pub fn c01_key_through_byte_encodings(sk: &SecretKey)
     let pkb = Vec::from(&pk);
     assert(pkb@ == pk_enc(pk.0));
 }
+
+/// ... and through the curve-tagged wrapper: a key carried through ANY byte form of SecretKeyEnum
+/// (big-endian, little-endian, Vec) comes back as the same key of the same curve, so what it signs
+/// verifies under the original public key (c01_sign_then_verify)
+pub fn c01_key_through_enum_encodings(k: &SecretKeyEnum)
+    requires ske_scalar(*k).val() != 0,
+{
+    proof { lemma_reverse_reverse(scalar_le(ske_scalar(*k))); lemma_all_zero_reverse(scalar_le(ske_scalar(*k))); }
+    let be = k.to_be_bytes();
+    assert(be@.subrange(1, 33) =~= sk_be(ske_scalar(*k)));
+    let r1 = SecretKeyEnum::from_be_bytes(be.as_slice());
+    assert(r1.is_some_spec() && ske_curve(r1.value()) == ske_curve(*k) && ske_scalar(r1.value()) == ske_scalar(*k));
+    let le = k.to_le_bytes();
+    assert(le@.subrange(1, 33) =~= scalar_le(ske_scalar(*k)));
+    let r2 = SecretKeyEnum::from_le_bytes(le.as_slice());
+    assert(r2.is_some_spec() && ske_curve(r2.value()) == ske_curve(*k) && ske_scalar(r2.value()) == ske_scalar(*k));
+    let v = Vec::from(k);
+    assert(v@.subrange(1, 33) =~= sk_be(ske_scalar(*k)));
+    let r3 = SecretKeyEnum::try_from(v.as_slice());
+    assert(r3 is Ok && ske_curve(r3->Ok_0) == ske_curve(*k) && ske_scalar(r3->Ok_0) == ske_scalar(*k));
+}
